@@ -39,8 +39,10 @@ def optimal_vs_all_instance(K):
         for perm in itertools.permutations(range(K)):
             yield 'optimal>=perm%s' % ''.join(map(str, perm)), sp.ge(tot, sp.sum(s[k, perm[k]] for k in range(K)))
 
+    # (budget: the solver seconds of a shard are wall-clock seconds; on a machine where all cores are busy with the other 200 instances
+    # of this check they stretch several times -- the vp check copy needed more than the default 90 s for two obligations of one shard)
     return Instance('C15', PA + '_mapping_from_score_matrix', 'K%d-optimal-vs-all' % K, make, call, ensures,
-                    max_paths=20000, crosscheck=False, weight=K ** 4, shard_depth=3 if K >= 3 else 0)
+                    max_paths=20000, crosscheck=False, weight=K ** 4, shard_depth=3 if K >= 3 else 0, budget=1500.0 if K >= 3 else None)
 
 
 def int_grid_instance(K, values=(0, 1, 2)):
